@@ -87,6 +87,17 @@ REGISTRY = {
         'assumptions': ['payload bytes are 0..255', 'names are compared only when ASCII; rotation angles within float tolerance and away from gimbal lock (|pitch| < 1.4 rad)'],
         'trusted': ['modelled, not verified: bytes::Buf panic conditions, nalgebra euler conversions, UTF-8 lossy conversion, uuid::from_slice on 16 bytes'],
     },
+    'C17': {
+        'rule': 'real Filter::matches (accept and reject policy): empty list, every single item over all 16 specified-field combinations x every hit/miss pattern against 68 identifiers covering PDU1/PDU2, priorities, addresses; 2- and 3-item lists sampled (30k quick / 400k thorough per policy) biased towards fully matching entries; '
+                'real CANSocket::send through the verif seam: the raw 16-byte can_frame datagram for every length 0..8 and id-bit class; real CANSocket::recv + ControlNetwork::recv on injected raw frames for every DLC 0..8 and can_id with bits 29/30/31 set or clear (2k quick / 20k thorough each); results vs extracted model, property predicates evaluated on the real outputs; non-trivial = non-empty filter or marshalling case; distinct by case text',
+        'exhaustive': {'quick': False, 'thorough': False},
+        'level_text': 'Theorems C17_tx_exact (ALL 29-bit ids, lengths 0..8, data), C17_rx_exact (ALL 32-bit can_ids, DLC 0..8, data), C17_accept / C17_reject (iff, filter lists of ANY length), C17_item (iff per field) and C17_da_never_matches_pdu2 are proved about the Gallina model of can.rs/net.rs; tied to the real code by differential execution incl. the real socket marshalling over the emulated bus.',
+        'level_note': 'struct can_frame layout (id LE32, dlc, 3 pad bytes, 8 data bytes) is modelled from libc; frames with DLC > 8 cannot come from a classic CAN socket and are outside the model (the Rust slice would panic). Trusted: kernel, extraction, drv.ml, harness bus hub.',
+        'technique': 'Rocq proof (bit-field arithmetic with lia, iff-characterisation over lists) + differential execution incl. raw datagrams on the emulated bus',
+        'explanation': 'six theorems in Properties/C17.v',
+        'assumptions': ['classic CAN: DLC <= 8'],
+        'trusted': ['modelled, not verified: libc::can_frame memory layout, socket2 send/recv, AsyncFd readiness'],
+    },
     'C07': {
         'level_text': 'Theorem C07 (and C07_envelope, C07_never_panics) proves the envelope for ALL idle<=max, ALL integer speeds and all 48 '
                       'state/age combinations about the Gallina model of Governor::next_state; the model is tied to the code by exhaustive '
